@@ -185,11 +185,16 @@ func (c *Ctx) nextModel() (*nextModel, error) {
 		return Value{K: vTuple, Tup: []Value{tagV("chunk", p.recvs), tagV("recvok", p.recvs)}}, true
 	}
 	h.Decide = func(in *Interp, st *State, cond ast.Expr) tri { return triUnknown }
-	h.Assume = func(in *Interp, st *State, cond ast.Expr, branch bool) bool {
+	h.AssumeV = func(in *Interp, st *State, cond ast.Expr, cv Value, branch bool) bool {
 		p := pay(st)
-		for _, vs := range in.eval(st.clone(), cond) {
+		for _, vs := range []valState{{st, cv}} {
 			if vs.v.K != vTag {
 				break
+			}
+			// the negation of a tracked condition (returned by a helper as !cond)
+			if vs.v.Tag == "not" {
+				vs.v = vs.v.Data.(Value)
+				branch = !branch
 			}
 			switch vs.v.Tag {
 			case "recvok":
@@ -266,6 +271,12 @@ func (c *Ctx) nextModel() (*nextModel, error) {
 	}
 	// string concatenation input[a:b] + chunk is given a structured value
 	h.BinOp = func(l Value, op token.Token, r Value) (Value, bool) {
+		if op == token.NOT && l.K == vTag {
+			if l.Tag == "not" {
+				return l.Data.(Value), true
+			}
+			return tagV("not", l), true
+		}
 		if op == token.ADD && l.K == vTag && l.Tag == "window" && r.K == vTag && r.Tag == "chunk" {
 			w := l.Data.(rebuilt)
 			w.chunk = true
